@@ -292,3 +292,18 @@ pub fn run_slice(mode: u8, ps: &[Prog], data: &[u8]) -> Vec<i128> {
         None => vec![3],
     }
 }
+
+/// The same run on a source that delivers its data lazily under `policy`; same observation format as `run_slice`.
+pub fn run_flex(mode: u8, ps: &[Prog], data: &[u8], policy: crate::sources::Policy) -> Vec<i128> {
+    let r = crate::common::catch(|| {
+        let mut log: Log = Vec::new();
+        let mut src = crate::sources::FlexSource::new(data, policy, None);
+        let r = Constructed::decode(&mut src, mode_n(mode), |cons| exec(ps, cons, &mut log));
+        (r.is_ok(), src.left(), log)
+    });
+    match r {
+        Some((true, left, log)) => { let mut v = vec![0, left as i128]; v.extend(log); v }
+        Some((false, _, _)) => vec![1],
+        None => vec![3],
+    }
+}
